@@ -101,10 +101,19 @@ func runC09(c *Ctx) {
 			fns = append(fns, fn)
 		}
 	}
-	for _, nm := range []string{"setFairShareForQueues", "getTopQueues", "getChildQueues", "createQueueResourceAttrs"} {
+	for _, nm := range []string{"setFairShareForQueues", "createQueueResourceAttrs"} {
 		if fn := c.Anchor("O1", "pkg/scheduler/plugins/proportion", "proportionPlugin", nm); fn != nil {
 			fns = append(fns, fn)
 		}
+	}
+	// the two selectors of a level's queues, whatever they are called
+	selTop, selChild := fairShareSelectors(p)
+	for _, sel := range []*ssa.Function{selTop, selChild} {
+		if sel == nil {
+			c.Undec("O1", "ANCHOR", "queue selectors of the fair-share recursion", 0, "the queue-set argument of setFairShareForQueues is not a call")
+			continue
+		}
+		fns = append(fns, sel)
 	}
 	// an early exit is acceptable when it is "nothing is left": its condition compares with zero a value that is
 	// carried around this loop and only ever reduced by the amounts handed out in it (every amount of a round is a
@@ -585,8 +594,12 @@ func runC09(c *Ctx) {
 					q1 = q1.Args[0]
 				}
 			}
-			if kids.Op == "call" && strings.HasSuffix(kids.Name, "getChildQueues") && len(kids.Args) > 1 {
-				q2 = kids.Args[1]
+			if kids.Op == "call" && kids.Fn != nil && kids.Fn == selChild {
+				for _, a := range kids.Args {
+					if q1 != nil && sameTerm(a, q1) {
+						q2 = a
+					}
+				}
 			}
 			c.Check(q1 != nil && q2 != nil && sameTerm(q1, q2), "O6", "PROV", funcKey(sf)+": children divide the fair share of their own parent", instrPos(in), "setFairShareForQueues(queue.GetFairShare(), k, getChildQueues(queue))", "the recursion does not hand the parent's fair share to that parent's children: total="+trunc(total.String(), 80)+" children="+trunc(kids.String(), 80))
 			// k is passed down unchanged
@@ -633,7 +646,7 @@ func runC09(c *Ctx) {
 		c.Check(!found, "O6", "MPT", funcKey(sf)+": a level with queues is always divided", sf.Pos(), "the division is skipped only when the level has no queues",
 			"setFairShareForQueues can return without dividing although the level has queues ("+pathStr(path)+"): those queues and everything below them keep a fair share of 0 instead of at least min(deserved, request)")
 	}
-	if gc := c.Anchor("O6", "pkg/scheduler/plugins/proportion", "proportionPlugin", "getChildQueues"); gc != nil {
+	if gc := selChild; gc != nil {
 		ok := false
 		for _, in := range instrsIn(gc, func(in ssa.Instruction) bool { _, isMU := in.(*ssa.MapUpdate); return isMU }) {
 			mu := in.(*ssa.MapUpdate)
@@ -896,33 +909,53 @@ func runC09UsageScaledByK(c *Ctx) {
 	if f == nil {
 		return
 	}
-	// values derived from the kValue parameter
-	var kParam *ssa.Parameter
-	for _, prm := range f.Params {
-		if b, ok := prm.Type().Underlying().(*types.Basic); ok && b.Info()&types.IsFloat != 0 {
-			kParam = prm
-		}
-	}
-	if kParam == nil {
-		c.Undec("O14", "ANCHOR", "calcShareWeights: float parameter (kValue)", f.Pos(), "not found")
-		return
-	}
-	fromK := map[ssa.Value]bool{kParam: true}
-	for changed := true; changed; {
-		changed = false
-		for _, b := range f.Blocks {
-			for _, in := range b.Instrs {
-				if bo, ok := in.(*ssa.BinOp); ok && !fromK[bo] && (fromK[bo.X] || fromK[bo.Y]) {
-					fromK[bo], changed = true, true
+	n := 0
+	// the weight formula may live in a helper of calcShareWeights: judged in the function that reads the usage, whose
+	// own float parameter fed from kValue plays kValue's role
+	for _, h := range c.P.deepFind(f, func(in ssa.Instruction) bool {
+		cc, ok := in.(*ssa.Call)
+		return ok && calleeOf(cc) != nil && calleeOf(cc).Name() == "GetUsage"
+	}, 2) {
+		in := h.In
+		g := in.Parent()
+		fromK := map[ssa.Value]bool{}
+		if g == f {
+			for _, prm := range f.Params {
+				if b, ok := prm.Type().Underlying().(*types.Basic); ok && b.Info()&types.IsFloat != 0 {
+					fromK[prm] = true
+				}
+			}
+		} else if len(h.Chain) > 0 {
+			// parameters of the helper that receive a value derived from calcShareWeights' float parameter
+			cs, isCall := h.Chain[len(h.Chain)-1].(ssa.CallInstruction)
+			if isCall {
+				for i, a := range cs.Common().Args {
+					if i < len(g.Params) && termOf(a).contains(func(x *Term) bool { return x.Op == "param" }) || (i < len(g.Params) && termOf(a).Op == "param") {
+						if b, ok := g.Params[i].Type().Underlying().(*types.Basic); ok && b.Info()&types.IsFloat != 0 {
+							if prm, isPrm := a.(*ssa.Parameter); isPrm {
+								if pb, ok := prm.Type().Underlying().(*types.Basic); ok && pb.Info()&types.IsFloat != 0 {
+									fromK[g.Params[i]] = true
+								}
+							}
+						}
+					}
 				}
 			}
 		}
-	}
-	n := 0
-	for _, in := range instrsIn(f, func(in ssa.Instruction) bool {
-		cc, ok := in.(*ssa.Call)
-		return ok && calleeOf(cc) != nil && calleeOf(cc).Name() == "GetUsage"
-	}) {
+		if len(fromK) == 0 {
+			c.Undec("O14", "ANCHOR", funcKey(g)+": the kValue operand", instrPos(in), "no float parameter carrying kValue found")
+			continue
+		}
+		for changed := true; changed; {
+			changed = false
+			for _, b := range g.Blocks {
+				for _, bi := range b.Instrs {
+					if bo, ok := bi.(*ssa.BinOp); ok && !fromK[bo] && (fromK[bo.X] || fromK[bo.Y]) {
+						fromK[bo], changed = true, true
+					}
+				}
+			}
+		}
 		n++
 		var bad ssa.Instruction
 		type st struct {
@@ -966,8 +999,33 @@ func runC09UsageScaledByK(c *Ctx) {
 		if bad != nil {
 			pos = instrPos(bad)
 		}
-		c.Check(bad == nil, "O14", "DEP", funcKey(f)+": the historical usage enters the share weight scaled by kValue", pos, "every flow of GetUsage() into the weight passes a multiplication by a kValue-derived factor",
+		c.Check(bad == nil, "O14", "DEP", funcKey(g)+": the historical usage enters the share weight scaled by kValue", pos, "every flow of GetUsage() into the weight passes a multiplication by a kValue-derived factor",
 			"the historical usage reaches the share weight without the kValue factor: with kValue 0 (history switched off) the surplus is still divided by past usage, a sole unsatisfied queue with usage ≥ its weight gets nothing while surplus stays undistributed")
 	}
 	c.Floor("O14", "DEP usage reads of calcShareWeights", n, 1)
+}
+
+// fairShareSelectors: the functions that select the queues of a level for the recursive fair-share division — found
+// by their use (the queue-set argument of the calls of setFairShareForQueues), not by their names: "top" feeds the
+// first call, "child" the recursive one.
+func fairShareSelectors(p *Prog) (top, child *ssa.Function) {
+	sf := p.Func("pkg/scheduler/plugins/proportion", "proportionPlugin", "setFairShareForQueues")
+	if sf == nil {
+		return nil, nil
+	}
+	for _, fn := range p.FuncsIn("pkg/scheduler/plugins/proportion") {
+		for _, in := range instrsIn(fn, isCallToFn(sf)) {
+			args := in.(ssa.CallInstruction).Common().Args
+			cl, ok := args[len(args)-1].(*ssa.Call)
+			if !ok || cl.Call.StaticCallee() == nil {
+				continue
+			}
+			if fn == sf {
+				child = cl.Call.StaticCallee()
+			} else {
+				top = cl.Call.StaticCallee()
+			}
+		}
+	}
+	return top, child
 }
